@@ -34,7 +34,119 @@ def alpha_name(node):
     return d.split(".")[-1] if d else None
 
 
+def float_quotients(chk, repo):
+    """`int(a / b)` is the exact quotient only while `/` is sympy's: once
+    both operands are Python ints (a rebound from int(...), b from int(...))
+    the division is a float and digits are lost above 2**53."""
+    n = 0
+    for modname in ("elements", "helpers"):
+        mod = repo.mod(modname)
+        for fname, fn in mod.functions.items():
+            defs = {}
+            for a in ast.walk(fn):
+                if isinstance(a, ast.Assign):
+                    for t in a.targets:
+                        if isinstance(t, ast.Name):
+                            defs.setdefault(t.id, []).append(a.value)
+                elif isinstance(a, ast.AugAssign) and isinstance(
+                        a.target, ast.Name):
+                    defs.setdefault(a.target.id, []).append(None)
+
+            def is_int_call(v):
+                return isinstance(v, ast.Call) and dotted(v.func) == "int" \
+                    and v.args and not any(
+                        isinstance(m, ast.Call) and dotted(m.func) == "len"
+                        for m in ast.walk(v))
+
+            def always_pyint(name):
+                ds = defs.get(name, [])
+                return bool(ds) and all(
+                    d is not None and (is_int_call(d) or (
+                        isinstance(d, ast.Constant)
+                        and isinstance(d.value, int))) for d in ds)
+
+            def maybe_pyint(name):
+                return any(d is not None and is_int_call(d)
+                           for d in defs.get(name, []))
+
+            for c in ast.walk(fn):
+                if not (isinstance(c, ast.Call) and (dotted(c.func) or "")
+                        in ("int", "math.floor", "round", "math.trunc")
+                        and c.args and isinstance(c.args[0], ast.BinOp)
+                        and isinstance(c.args[0].op, ast.Div)):
+                    continue
+                n += 1
+                l, r = c.args[0].left, c.args[0].right
+                bad = isinstance(l, ast.Name) and isinstance(r, ast.Name) \
+                    and maybe_pyint(l.id) and always_pyint(r.id)
+                chk.ob("C15.no-float-quotient",
+                       f"{modname}.{fname}:{ast.unparse(c)[:40]}", not bad,
+                       f"`{ast.unparse(c)}`: `{r.id if bad else ''}` is a "
+                       f"Python int and `{l.id if bad else ''}` is rebound "
+                       "from int(...), so from the second round on the "
+                       "quotient is a float: digits of integers above 2**53 "
+                       "are lost", mod.rel, c.lineno,
+                       witness="2**63-1 in base 2")
+    chk.unit("int(a / b) sites examined", n)
+
+
+def one_sided_bounds(chk, repo):
+    """An index computed as a difference and checked against the upper end
+    of its table (`x < len(T)`) has to be checked against 0 as well: a
+    negative index does not fail in Python, it counts from the end."""
+    from ..flow import path_conditions
+    n = 0
+    for modname in ("elements", "helpers"):
+        mod = repo.mod(modname)
+        for p_ in ast.walk(mod.tree):
+            for c_ in ast.iter_child_nodes(p_):
+                c_._parent = p_
+        for fname, fn in mod.functions.items():
+            defs = {}
+            for a in ast.walk(fn):
+                if isinstance(a, ast.Assign):
+                    for t in a.targets:
+                        if isinstance(t, ast.Name):
+                            defs.setdefault(t.id, []).append(a.value)
+            for sub in ast.walk(fn):
+                if not (isinstance(sub, ast.Subscript) and isinstance(
+                        sub.slice, ast.Name) and isinstance(
+                        sub.ctx, ast.Load)):
+                    continue
+                x = sub.slice.id
+                if not any(isinstance(d, ast.BinOp) and isinstance(
+                        d.op, ast.Sub) for d in defs.get(x, [])):
+                    continue
+                conds = [(ast.unparse(t).replace(" ", ""), pol)
+                         for t, pol in path_conditions(sub, fn)]
+                upper = any((pol and (c.startswith(f"{x}<")
+                                      or c.startswith(f"len(") and c.endswith(
+                                          f">{x}")))
+                            or (not pol and c.startswith(f"{x}>="))
+                            for c, pol in conds)
+                lower = any((pol and (c.startswith(f"{x}>=")
+                                      or c.startswith(f"{x}>")
+                                      or c.startswith(f"0<={x}")
+                                      or c.startswith(f"0<{x}")))
+                            or (not pol and (c.startswith(f"{x}<0")
+                                             or c.startswith(f"{x}<=")))
+                            for c, pol in conds)
+                if not upper:
+                    continue
+                n += 1
+                chk.ob("C15.index-bounded-below",
+                       f"{modname}.{fname}:{ast.unparse(sub)[:40]}", lower,
+                       f"`{ast.unparse(sub)}` is guarded by an upper bound on "
+                       f"`{x}` only; `{x}` is a difference and can be "
+                       "negative, and a negative index silently counts from "
+                       "the end of the table", mod.rel, sub.lineno,
+                       witness="the value just below the table's offset")
+    chk.unit("difference-valued indices with an upper-bound guard", n)
+
+
 def check(chk, repo, tier):
+    float_quotients(chk, repo)
+    one_sided_bounds(chk, repo)
     chk.trusted_base += ["CPython ast", "vystatic.pe constant folder"]
     it = Interp(repo)
     enc = it.module("vyxal.encoding")
